@@ -8,11 +8,13 @@
 package main
 
 import (
+	"encoding/hex"
 	"errors"
 	"fmt"
 	"os"
 	"sort"
 	"strings"
+	"time"
 
 	"github.com/nspcc-dev/neo-go/pkg/core"
 	"github.com/nspcc-dev/neo-go/pkg/core/block"
@@ -24,7 +26,7 @@ import (
 	"verif/harness/internal/prng"
 )
 
-const slots = 200 // case index = state*slots + corruption index
+const slots = 260 // case index = state*slots + corruption index
 
 // quickStates is the hand-picked state list of the quick tier; further states are random.
 var quickStates = []stateSpec{
@@ -39,7 +41,7 @@ var quickStates = []stateSpec{
 	{k: kind{multi: true, sr: true, vt: true}, nprep: 1, ahead: 2, ntx: 1, poolMode: 0, badNextPsr: true},
 	{k: kind{multi: false, vt: true, skip: true}, nprep: 1, ahead: 0, ntx: 2, poolMode: 1},
 	{k: kind{multi: true, vt: true}, nprep: 1, ahead: 0, ntx: 0, poolMode: 0},
-	{k: kind{multi: false, sr: true, vt: true}, nprep: 1, ahead: 3, ntx: 4, poolMode: 2},
+	{k: kind{multi: false, sr: true, vt: true}, nprep: 1, ahead: 3, ntx: 6, poolMode: 2},
 	{k: kind{multi: true, sr: true, vt: true, skip: true}, nprep: 1, ahead: 2, ntx: 3, poolMode: 1},
 	// a pooled transaction loses its validity by the tip block (control + tx-list candidates only)
 	{k: kind{multi: false, vt: true}, nprep: 1, ntx: 2, stale: 1},
@@ -49,19 +51,33 @@ var quickStates = []stateSpec{
 	{k: kind{multi: false, vt: true}, nprep: 1, ntx: 2, stale: 5},
 	{k: kind{multi: true, sr: true, vt: true}, nprep: 2, ntx: 2, stale: 6},
 	{k: kind{multi: false, vt: true}, nprep: 1, ntx: 2, poolMode: 1, stale: 7},
+	// the conflict record of block 2 at the edge of a 2-block traceability window: still counted / forgotten
+	{k: kind{multi: false, vt: true}, nprep: 1, ntx: 2, mtb: 2, gap: 1, slim: true},
+	{k: kind{multi: true, sr: true, vt: true}, nprep: 1, ntx: 2, mtb: 2, gap: 2, slim: true},
+	// SkipBlockVerification, headers ahead, and account A's stored transfer log with room for one more entry:
+	// a block with another transaction list is executed and then refused - the log's entry counter was
+	// changed in place (failed-store-corrupts-transfer-log, fixed: b358bb1; kept as a regression, tied again)
+	{k: kind{multi: true, sr: true, vt: false, skip: true}, nprep: 1, ahead: 2, ntx: 3, slim: true, extraA: 3},
+	// VerifyTransactions off and six transactions: [t1..t6,t5,t6] has the Merkle root, hash and signature of [t1..t6]
+	{k: kind{multi: true, vt: false}, nprep: 1, ntx: 6, slim: true},
 }
 
 func randomSpec(r *prng.R) stateSpec {
 	s := stateSpec{k: kind{multi: r.Chance(2, 3), sr: r.Bool(), vt: r.Chance(4, 5), skip: r.Chance(1, 12)}}
 	s.nprep = 1 + r.Intn(3)
 	s.ahead = r.Weighted([]int{4, 3, 2, 2})
-	s.ntx = r.Weighted([]int{1, 2, 2, 4, 2, 3})
+	s.ntx = r.Weighted([]int{1, 2, 2, 4, 2, 3, 2, 1})
 	s.poolMode = r.Intn(3)
 	if s.k.sr && s.ahead >= 2 && r.Chance(1, 6) {
 		s.badNextPsr = true
 	}
 	if r.Chance(1, 4) {
 		s.stale = 1 + r.Intn(len(staleNames)-1)
+	}
+	if r.Chance(1, 5) {
+		s.mtb = 2 + r.Intn(3)
+		s.gap = r.Intn(5)
+		s.slim = true
 	}
 	return s
 }
@@ -141,13 +157,12 @@ type txDesc struct {
 	confl           []string
 	confH           []util.Uint256
 	h               util.Uint256
+	tok             string // the facts the model's stand-alone verification decides on
+	raw             *transaction.Transaction
 }
 
 func (st *state) describeTx(t *transaction.Transaction) txDesc {
-	d := txDesc{id: short(t.Hash()), h: t.Hash(), wid: "-", fee: t.SystemFee + t.NetworkFee, net: t.NetworkFee}
-	if len(t.Scripts) > 0 {
-		d.wid = witID(&t.Scripts[0])
-	}
+	d := txDesc{id: short(t.Hash()), h: t.Hash(), wid: witAll(t), fee: t.SystemFee + t.NetworkFee, net: t.NetworkFee, tok: st.txToken(t), raw: t}
 	d.sender = "?"
 	if len(t.Signers) > 0 {
 		if n, ok := st.names[t.Signers[0].Account]; ok {
@@ -167,17 +182,7 @@ func (st *state) describeTx(t *transaction.Transaction) txDesc {
 	return d
 }
 
-func (d txDesc) token() string {
-	c := "-"
-	if len(d.confl) > 0 {
-		c = strings.Join(d.confl, "+")
-	}
-	v := 0
-	if d.valid {
-		v = 1
-	}
-	return fmt.Sprintf("%s:%s:%s:%d:%d:%d:%s", d.id, d.wid, d.sender, d.fee, d.net, v, c)
-}
+func (d txDesc) token() string { return d.tok }
 
 func b01(x bool) int {
 	if x {
@@ -236,8 +241,9 @@ func (st *state) rootOnClean(b *block.Block) (util.Uint256, error) {
 }
 
 func (st *state) vectorOf(known []hdrInfo, b *block.Block) vector {
-	// GAS.OnPersist pays validators[PrimaryIndex] (only when the block has transactions)
-	v := vector{storeOK: int(b.PrimaryIndex) < st.v.nvals || len(b.Transactions) == 0}
+	// (GAS.OnPersist pays validators[PrimaryIndex], only when the block has transactions: decided by the
+	// model from prim= and nvals=)
+	v := vector{storeOK: true}
 	switch {
 	case b.Index < st.h+1:
 		v.idxRel = -1
@@ -292,7 +298,14 @@ func (st *state) mutuallyCompatible(txs []txDesc) (bool, string) {
 	return true, ""
 }
 
+var tCorr, tReplica time.Duration
+
 func main() {
+	defer func() {
+		if os.Getenv("VERIF_DEBUG") == "time" {
+			fmt.Fprintf(os.Stderr, "corruptions: %v replica: %v\n", tCorr, tReplica)
+		}
+	}()
 	f := hx.ParseFlags()
 	o := hx.NewOut(f.Out)
 	defer o.Close()
@@ -336,7 +349,7 @@ func main() {
 			continue
 		}
 		base := cp.state * slots
-		names := corruptions(st, prng.ForCase(f.Seed, base))
+		names := corruptionsFor(st, prng.ForCase(f.Seed, base), 1<<30)
 		for ci := range names {
 			if names[ci].name != cp.name {
 				continue
@@ -365,11 +378,13 @@ func main() {
 				continue
 			}
 			r := prng.ForCase(f.Seed, k)
-			cs := corruptions(st, r)
+			t0 := time.Now()
+			cs := corruptionsFor(st, r, ci)
+			tCorr += time.Since(t0)
 			if ci >= len(cs) {
 				break
 			}
-			if st.spec.stale > 0 && cs[ci].group != "control" && cs[ci].group != "txlist" {
+			if (st.spec.stale > 0 || st.spec.slim) && cs[ci].group != "control" && cs[ci].group != "txlist" && cs[ci].group != "txverify" {
 				continue // stale-pool states: the header/witness/encoding sweeps add nothing new
 			}
 			runCase(o, k, st, &cs[ci], r)
@@ -391,11 +406,12 @@ var corpus = []struct {
 	{0, "inblock-conflict-after-higher-fee+resigned"}, // [t1,t2], t2.Conflicts={t1} (d0c3ec8)
 	{0, "inblock-conflict-before-lower-fee+resigned"},
 	{6, "dup-last"},                 // [a,b,c,c] with the hash of [a,b,c], VerifyTransactions off (ab64b57)
+	{23, "dup-last-pair(same-root)"}, // [t1..t6,t5,t6] with the hash and signature of [t1..t6], VerifyTransactions off
 	{7, "tx-witness-bitflip-first"}, // VerifyTransactions off: accepted tx stayed in the mempool (a280843)
 	{12, "dup-last"},                // storeBlock fails after AddMPTBatch (next header's PrevStateRoot): trie damaged
 	{12, "add-valid-tx"},
 	// a pooled transaction that lost its validity by the tip block and is carried by the next block
-	{13, "add-stale-pooled+resigned"}, // FeePerByte raised a little: the mempool's fee-per-byte test keeps it (known)
+	{13, "add-stale-pooled+resigned"}, // FeePerByte raised a little: the witness cost was not re-checked (fixed: 4f45775)
 	{14, "add-stale-pooled+resigned"}, // FeePerByte raised a lot: must have been evicted (seeded loadPolicy mutation)
 	{15, "add-stale-pooled+resigned"}, // attribute fee raised (fixed: 397b691)
 	{16, "add-stale-pooled+resigned"}, // sender blocked by Policy.blockAccount (fixed: 397b691)
@@ -436,9 +452,18 @@ func (st *state) blockLine(op string, known []hdrInfo, b *block.Block, v vector)
 	if len(toks) > 0 {
 		tx = strings.Join(toks, ",")
 	}
-	line = fmt.Sprintf("%s idx=%d sre=%d hash=%s prev=%s ts=%d nc=%s psr=%s wit=%s mroot=%s cmroot=%s newroot=%s store=%d txs=%s",
-		op, hi.idx, b01(b.StateRootEnabled), short(hi.hash), short(hi.prev), hi.ts, short160(hi.nc), short(hi.psr), hi.wit,
-		short(b.MerkleRoot), short(v.cmroot), short(v.newRoot), b01(v.storeOK), tx)
+	// the full transaction hashes (big-endian bytes): the model computes the Merkle root itself (double SHA-256)
+	var hs []string
+	for _, t := range b.Transactions {
+		hs = append(hs, hex.EncodeToString(t.Hash().BytesBE()))
+	}
+	txh := "-"
+	if len(hs) > 0 {
+		txh = strings.Join(hs, ",")
+	}
+	line = fmt.Sprintf("%s idx=%d sre=%d hash=%s prev=%s ts=%d nc=%s psr=%s wit=%s prim=%d mroot=%s newroot=%s store=%d txs=%s txh=%s",
+		op, hi.idx, b01(b.StateRootEnabled), short(hi.hash), short(hi.prev), hi.ts, short160(hi.nc), short(hi.psr), hi.wit, b.PrimaryIndex,
+		short(b.MerkleRoot), short(v.newRoot), b01(v.storeOK), tx, txh)
 	return
 }
 
@@ -461,10 +486,27 @@ func attempt(o *hx.Out, k int, st *state, c *chainT, known []hdrInfo, b *block.B
 	if sigFact != "" {
 		o.Line(sigFact, "ok")
 	}
+	if !untied {
+		for _, l := range st.recLines(b.Transactions) {
+			o.Line(l, "ok")
+		}
+	}
 	var err error
 	res := hx.Safe(func() string {
 		err = c.bc.AddBlock(b)
-		return classify(err)
+		r := classify(err)
+		if r == "err:tx" {
+			// which transaction, and which check of verifyAndPoolTx / the scratch pool
+			at := -1
+			for i, t := range b.Transactions {
+				if strings.HasPrefix(err.Error(), "transaction "+t.Hash().StringLE()+" ") {
+					at = i
+					break
+				}
+			}
+			r = fmt.Sprintf("err:tx/%s@%d", classifyTxErrFull(err), at)
+		}
+		return r
 	})
 	after := c.snapshot()
 	if os.Getenv("VERIF_DEBUG") != "" {
@@ -515,7 +557,7 @@ func attempt(o *hx.Out, k int, st *state, c *chainT, known []hdrInfo, b *block.B
 	} else {
 		o.Line(line, obs)
 	}
-	o.Count(tag + ":" + strings.SplitN(res, "(", 2)[0])
+	o.Count(tag + ":" + strings.SplitN(strings.SplitN(res, "(", 2)[0], "@", 2)[0])
 	return res, before, after, err
 }
 
@@ -525,7 +567,9 @@ func runCase(o *hx.Out, k int, st *state, cd *cand, r *prng.R) {
 	fail := func(key, format string, a ...any) {
 		o.Fail(key, k, "state{%s} corruption{%s/%s} %s", spec, cd.group, cd.name, fmt.Sprintf(format, a...))
 	}
+	t0 := time.Now()
 	c := st.replica()
+	tReplica += time.Since(t0)
 	defer c.close()
 	known := st.knownHeaders()
 	tipInfo := known[st.h]
@@ -536,8 +580,9 @@ func runCase(o *hx.Out, k int, st *state, cd *cand, r *prng.R) {
 		o.Line(hdrLine(h), "ok")
 	}
 	o.Line(fmt.Sprintf("node bh=%d root=%s", st.h, short(st.roots[st.h])), "ok")
+	o.Line(st.chainLine(), "ok")
 	var bl []string
-	for _, n := range []string{"A", "B", "C", "D", "poor", "outsider", "stale"} {
+	for _, n := range []string{"A", "B", "C", "D", "poor", "outsider", "stale", "K", "committee", "vals"} {
 		bl = append(bl, fmt.Sprintf("%s=%d", n, st.bal[n]))
 	}
 	o.Line("bal "+strings.Join(bl, " "), "ok")
@@ -564,6 +609,10 @@ func runCase(o *hx.Out, k int, st *state, cd *cand, r *prng.R) {
 
 	if cd.group == "headers" {
 		runHeadersCase(o, k, st, cd, r, c, known, fail)
+		return
+	}
+	if cd.group == "txverify" {
+		runTxVerify(o, k, st, c, fail)
 		return
 	}
 	recordedOther := false   // a header with a hash other than the valid block's was recorded
@@ -725,6 +774,16 @@ func runCase(o *hx.Out, k int, st *state, cd *cand, r *prng.R) {
 					// SkipBlockVerification: headers are recorded unverified by configuration
 					o.Count("rejected:header-recorded-unverified(skip)")
 					recordedOther = recordedOther || b.Hash() != st.next.Hash()
+				case !hdrOnly && err != nil && strings.Contains(err.Error(), "PrevStateRoot mismatch") && onlyTransferLogs(add, chg, rem) && after.hh == before.hh:
+					kb, _ := hex.DecodeString(chg[0])
+					bv, av := before.db[string(kb)], after.db[string(kb)]
+					fail("failed-store-corrupts-transfer-log", "the rejected block (executed, then refused by the next header's PrevStateRoot) changed stored token transfer logs in place: ~%v; first one: %d bytes, entry count byte %d -> %d bytes, entry count byte %d, rest equal: %v (%v)",
+						chg, len(bv), bv[0], len(av), av[0], len(bv) == len(av) && bv[1:] == av[1:], err)
+					if len(kb) >= 21 {
+						if u, e := util.Uint160DecodeBytesBE(kb[1:21]); e == nil {
+							o.Count("failed-store:transfer-log-of:" + st.acctName(u))
+						}
+					}
 				case !hdrOnly:
 					fail("rejected-db-changed", "database changed by a rejected block: +%v ~%v -%v, header height %d->%d (%v)", add, chg, rem, before.hh, after.hh, err)
 				case !linked:
@@ -783,6 +842,19 @@ func runCase(o *hx.Out, k int, st *state, cd *cand, r *prng.R) {
 	if !sameHashes(after.pool, st.refPool) {
 		fail("valid-differs-after-reject", "mempool %s, on a clean replica %s", poolIDs(after.pool), poolIDs(st.refPool))
 	}
+}
+
+// onlyTransferLogs: the difference consists of changed values under NEP-11/NEP-17 transfer log keys only.
+func onlyTransferLogs(add, chg, rem []string) bool {
+	if len(add) != 0 || len(rem) != 0 || len(chg) == 0 {
+		return false
+	}
+	for _, k := range chg {
+		if !strings.HasPrefix(k, "72") && !strings.HasPrefix(k, "73") {
+			return false
+		}
+	}
+	return true
 }
 
 // knownAfter re-reads which headers the node knows after an attempt (a rejected block may have
